@@ -146,7 +146,10 @@ _CORPUS = {}
 
 def _corpus(tier):
     if tier not in _CORPUS:
-        _CORPUS[tier] = corpus(tier)
+        import os
+        only = os.environ.get("C08_ONLY")   # development aid: key prefix filter
+        _CORPUS[tier] = [c for c in corpus(tier)
+                         if not only or c[0].startswith(tuple(only.split(",")))]
     return _CORPUS[tier]
 
 
